@@ -197,29 +197,36 @@ class C05(Campaign):
         """Within one candidate the guard entries are evaluated one at a time, in declaration order, and
         evaluation stops at the first entry that fails -- on the async engine exactly as on the sync one
         (checked where the reference can name the order, see RefInst.guard_order)."""
-        def walk(execs, n):
+        def gather(execs, acc):
             for ex in execs:
                 for it in ex.get("items", []):
-                    if it.get("g") == "guards" and it.get("order") is not None and not it.get("failing") \
-                            and "_seen" in it:
-                        seen = it["_seen"]
-                        if seen != it["order"]:
-                            return {"clause": "C05.twin_phases", "kind": "guard_order", "op": n,
-                                    "detail": {"event": it.get("ev"), "state": it.get("src"),
-                                               "evaluated": seen, "expected_in_declaration_order": it["order"]}}
+                    if it.get("g") == "guards":
+                        acc.append(it)
                     for mem in it.get("members", []):
-                        v_ = walk(mem.get("nested") or [], n)
-                        if v_:
-                            return v_
-            return None
+                        gather(mem.get("nested") or [], acc)
+            return acc
 
         for n in sorted(m.exp_by_op):
             exp = m.exp_by_op[n]
             if exp.get("exc") is not None:
                 continue
-            v = walk(exp.get("execs") or [], n)
-            if v:
-                return v
+            items = gather(exp.get("execs") or [], [])
+            uses = {}
+            for it in items:
+                for c_ in {mm["c"] for mm in it.get("members", [])}:
+                    uses[c_] = uses.get(c_, 0) + 1
+            for it in items:
+                # (a guard that is evaluated in several candidate windows of one operation -- other
+                # candidates, or the same candidate for a second queued event -- cannot be attributed
+                # to one of them with certainty: such windows are left out)
+                if it.get("order") is None or it.get("failing") or "_seen" not in it:
+                    continue
+                if any(uses[mm["c"]] > 1 for mm in it.get("members", [])):
+                    continue
+                if it["_seen"] != it["order"]:
+                    return {"clause": "C05.twin_phases", "kind": "guard_order", "op": n,
+                            "detail": {"event": it.get("ev"), "state": it.get("src"), "evaluated": it["_seen"],
+                                       "expected_in_declaration_order": it["order"]}}
         return None
 
     def nontrivial(self, sc, ev):
